@@ -88,6 +88,64 @@ def install_call_variants(mod):
     iso8583.loads, iso8583.dumps = loads, dumps
 
 
+# The documented parameter lists of the public entry points (cardutil 's own signatures at the pinned commit): name ->
+# (owner path, [(parameter, default or REQUIRED)...] after the first argument).  For every call that reaches one of them
+# with arguments given ONLY by keyword (or only by position), one call in four is re-made the other way round - keyword
+# arguments turned into positional ones in the documented order, positional ones into keywords with the documented names.
+# A parameter inserted, renamed or reordered in a signature changes what such a call means; the model has no call syntax.
+REQUIRED = object()
+SIGNATURES = [
+    ('cardutil.mciipm', 'IpmReader.__init__', ['encoding', 'iso_config'], [None, None]),
+    ('cardutil.mciipm', 'IpmWriter.__init__', ['encoding', 'iso_config'], [None, None]),
+    ('cardutil.mciipm', 'IpmParamReader.__init__', ['table_id', 'encoding', 'param_config', 'expanded'], [REQUIRED, None, None, False]),
+    ('cardutil.mciipm', 'VbsReader.__init__', ['blocked'], [False]),
+    ('cardutil.mciipm', 'VbsWriter.__init__', ['blocked'], [False]),
+    ('cardutil.card', 'mask', ['mask_char'], ['*']),
+    ('cardutil.key', 'calculate_kcv', ['kvc_length'], [6]),
+    ('cardutil.key', 'encrypt_key', ['master_key'], [REQUIRED]),
+    ('cardutil.pinblock', 'calculate_pvv', ['pvv_key', 'key_index', 'card_number'], [REQUIRED, REQUIRED, REQUIRED]),
+]
+
+
+def install_call_styles():
+    import functools
+    import zlib
+
+    def simple(x):
+        return repr(x)[:80] if isinstance(x, (str, int, bool, type(None))) else (bytes(x[:32]).hex() if isinstance(x, (bytes, bytearray)) else type(x).__name__)
+
+    def wrap(fn, names, defaults, is_init):
+        skip = 2 if is_init else 1             # self + the first argument / the first argument
+
+        @functools.wraps(fn)
+        def call(*a, **k):
+            try:
+                h = zlib.crc32(('|'.join(simple(x) for x in a[skip - 1:]) + '#' + '|'.join('%s=%s' % (n, simple(v)) for n, v in sorted(k.items()))).encode('utf8', 'replace'))
+            except Exception:
+                h = 1
+            if h % 4 == 0:
+                extra = a[skip:]
+                if not extra and k and set(k) <= set(names):
+                    # keywords -> positions, up to the last one given; impossible if a required one in between is missing
+                    last = max(names.index(n) for n in k)
+                    vals = [k.get(n, d) for n, d in zip(names[:last + 1], defaults[:last + 1])]
+                    if not any(v is REQUIRED for v in vals):
+                        return fn(*a, *vals)
+                elif extra and len(extra) <= len(names) and not (set(k) & set(names[:len(extra)])):
+                    # positions -> keywords with the documented names
+                    return fn(*a[:skip], **dict(zip(names, extra)), **k)
+            return fn(*a, **k)
+        return call
+    import importlib
+    for modname, path, names, defaults in SIGNATURES:
+        try:
+            m = importlib.import_module(modname)
+            owner, attr = (m, path) if '.' not in path else (getattr(m, path.split('.')[0]), path.split('.')[1])
+            setattr(owner, attr, wrap(getattr(owner, attr), names, defaults, attr == '__init__'))
+        except Exception:
+            pass                                # an entry point that is gone shows up in the checks themselves
+
+
 def for_impl(mod, c):
     if not getattr(mod, 'CODEC_ALIASES', False) or not isinstance(c, dict):
         return c
@@ -176,6 +234,8 @@ def main():
     start_line_probe()
     mod = importlib.import_module(sys.argv[1])
     install_call_variants(mod)
+    if not os.environ.get('CUV_NO_CALL_STYLES'):
+        install_call_styles()
     cases = json.load(open(sys.argv[2]))
     timeout = float(sys.argv[4])
     signal.signal(signal.SIGALRM, on_alarm)
